@@ -85,3 +85,82 @@ Theorem include_splices fuel fs stack cur t r a b :
   expand fuel fs (cur :: stack) t (file fs t) = Some a -> expand (S fuel) fs stack cur r = Some b ->
   expand (S fuel) fs stack cur (IInc (Some t) :: r) = Some (a ++ b).
 Proof. intros H A B. cbn [expand]. rewrite H. cbn [expand] in B. rewrite A, B. reflexivity. Qed.
+
+(* ---- without a reported cycle the result is the plain textual splice -------------------------------------- *)
+(* the splice semantics: an include directive stands for the contents of its file, nothing else is
+   looked at (no notion of "files being parsed") *)
+Fixpoint splice (fuel : nat) (fs : list (list iitem)) : nat -> list iitem -> option (list iout) :=
+  fix go (cur : nat) (items : list iitem) {struct items} : option (list iout) :=
+    match items with
+    | [] => Some []
+    | IOp o :: r => option_map (cons (OOp o)) (go cur r)
+    | IInc None :: r => option_map (cons (OMissing cur)) (go cur r)
+    | IInc (Some t) :: r =>
+        match fuel with
+        | O => None
+        | S f => match splice f fs t (file fs t), go cur r with
+                 | Some a, Some b => Some (a ++ b)
+                 | _, _ => None
+                 end
+        end
+    end.
+
+Definition no_cycle_report (out : list iout) : Prop :=
+  Forall (fun o => match o with ORecursive _ => False | _ => True end) out.
+
+Lemma expand_op fuel fs stack cur o r :
+  expand fuel fs stack cur (IOp o :: r) = option_map (cons (OOp o)) (expand fuel fs stack cur r).
+Proof. destruct fuel; reflexivity. Qed.
+Lemma expand_missing fuel fs stack cur r :
+  expand fuel fs stack cur (IInc None :: r) = option_map (cons (OMissing cur)) (expand fuel fs stack cur r).
+Proof. destruct fuel; reflexivity. Qed.
+Lemma expand_inc_new fuel fs stack cur t r : on_stack t (cur :: stack) = false ->
+  expand (S fuel) fs stack cur (IInc (Some t) :: r) =
+  match expand fuel fs (cur :: stack) t (file fs t), expand (S fuel) fs stack cur r with
+  | Some a, Some b => Some (a ++ b) | _, _ => None end.
+Proof. intros H. cbn [expand]. rewrite H. reflexivity. Qed.
+Lemma expand_inc_new0 fs stack cur t r : on_stack t (cur :: stack) = false ->
+  expand 0 fs stack cur (IInc (Some t) :: r) = None.
+Proof. intros H. cbn [expand]. rewrite H. reflexivity. Qed.
+Lemma splice_op fuel fs cur o r : splice fuel fs cur (IOp o :: r) = option_map (cons (OOp o)) (splice fuel fs cur r).
+Proof. destruct fuel; reflexivity. Qed.
+Lemma splice_missing fuel fs cur r : splice fuel fs cur (IInc None :: r) = option_map (cons (OMissing cur)) (splice fuel fs cur r).
+Proof. destruct fuel; reflexivity. Qed.
+Lemma splice_inc fuel fs cur t r :
+  splice (S fuel) fs cur (IInc (Some t) :: r) =
+  match splice fuel fs t (file fs t), splice (S fuel) fs cur r with Some a, Some b => Some (a ++ b) | _, _ => None end.
+Proof. reflexivity. Qed.
+
+Theorem no_report_is_splice fs : forall fuel stack cur items out,
+  expand fuel fs stack cur items = Some out -> no_cycle_report out ->
+  splice fuel fs cur items = Some out.
+Proof.
+  induction fuel as [|f IHf]; intros stack cur items;
+    induction items as [|it r IHr]; intros out E N; try (destruct f || idtac; cbn in *; exact E).
+  - destruct it as [o|[t|]].
+    + rewrite expand_op in E. rewrite splice_op.
+      destruct (expand 0 fs stack cur r) as [o1|]; [|discriminate E]. injection E as <-.
+      inversion N; subst. rewrite (IHr o1 eq_refl H2). reflexivity.
+    + destruct (on_stack t (cur :: stack)) eqn:OS.
+      * rewrite cycle_reported in E by exact OS.
+        destruct (expand 0 fs stack cur r) as [o1|]; [|discriminate E]. injection E as <-. inversion N; subst. contradiction.
+      * rewrite expand_inc_new0 in E by exact OS. discriminate E.
+    + rewrite expand_missing in E. rewrite splice_missing.
+      destruct (expand 0 fs stack cur r) as [o1|]; [|discriminate E]. injection E as <-.
+      inversion N; subst. rewrite (IHr o1 eq_refl H2). reflexivity.
+  - destruct it as [o|[t|]].
+    + rewrite expand_op in E. rewrite splice_op.
+      destruct (expand (S f) fs stack cur r) as [o1|]; [|discriminate E]. injection E as <-.
+      inversion N; subst. rewrite (IHr o1 eq_refl H2). reflexivity.
+    + destruct (on_stack t (cur :: stack)) eqn:OS.
+      * rewrite cycle_reported in E by exact OS.
+        destruct (expand (S f) fs stack cur r) as [o1|]; [|discriminate E]. injection E as <-. inversion N; subst. contradiction.
+      * rewrite expand_inc_new in E by exact OS. rewrite splice_inc.
+        destruct (expand f fs (cur :: stack) t (file fs t)) as [a|] eqn:Ea; [|discriminate E].
+        destruct (expand (S f) fs stack cur r) as [b|]; [|discriminate E]. injection E as <-.
+        unfold no_cycle_report in N. apply Forall_app in N as [Na Nb].
+        rewrite (IHf _ _ _ a Ea Na), (IHr b eq_refl Nb). reflexivity.
+    + rewrite expand_missing in E. rewrite splice_missing.
+      destruct (expand (S f) fs stack cur r) as [o1|]; [|discriminate E]. injection E as <-.
+      inversion N; subst. rewrite (IHr o1 eq_refl H2). reflexivity.
+Qed.
